@@ -16,8 +16,8 @@ var noInitPrefixes = []string{
 
 func skipInit(p *ssa.Package) bool {
 	path := p.Pkg.Path()
-	if path == "crypto" {
-		return false // hash registry tables only
+	if path == "crypto" || path == "unicode/utf8" {
+		return false // hash registry tables / decoding tables only
 	}
 	for _, pre := range noInitPrefixes {
 		if path == strings.TrimSuffix(pre, "/") || strings.HasPrefix(path, pre) {
